@@ -18,7 +18,8 @@ RULE = ("A job pool is built deterministically from VERIF_SEED: the shipped corp
         "a verification-side logic that mutates its rule argument non-idempotently, comments on/off, shared ACL texts). Phase 1 (prepare): "
         "every job's result (stripped diff, command paths, ordered config) is computed in a FRESH interpreter (spawn, one job per "
         "process). Phase 2: Hypothesis draws sequences of <=12 job indices (repeats, vendor interleavings, shared compiled ACL objects) "
-        "executed in one long-lived process (the shard process itself also keeps the history of all earlier cases). Oracle: every result "
+        "executed in one long-lived process (the shard process itself also keeps the history of all earlier cases); phase 3: short sequences "
+        "from cold interpreters and every job alone in new interpreters started with other string-hash seeds. Oracle: every result "
         "equals the fresh-process result; canonical snapshots of old, new and the compiled rulebook before a call equal those after it; "
         "a repeated job gives the same answer. Non-trivial: the sequence visits >=2 vendors and repeats a (hardware, rulebook) with a "
         "different job in between.")
